@@ -15,6 +15,8 @@ func init() {
 		e.RFileScope()
 		e.RPerFileState()
 		e.RPackageCommentGap()
+		e.RGates()
+		e.RMapInit()
 		e.RGuard("fragger", "decorate", "restore")
 		e.RNewlineScan()
 		e.RClauseSym()
